@@ -24,7 +24,7 @@ TIERS = {
     "quick": dict(plans=184, budget_s=70, worlds=4, det_plans=2),
     "thorough": dict(plans=6000, budget_s=900, worlds=150, det_plans=8, always_selftest=True),
 }
-LOSSES = ["contig_absent", "depth_just_below", "depth_just_above", "locus_skipped", "locus", "locus_decoy_sam", "locus_sliver", "gene_only", "neutral", "neutral_sparse", "empty", "depth_below", "depth_above", "stream_error", "seam_drop_locus"]
+LOSSES = ["contig_absent", "neutral_contig_absent", "depth_just_below", "depth_just_above", "locus_skipped", "locus", "locus_decoy_sam", "locus_sliver", "gene_only", "neutral", "neutral_sparse", "empty", "depth_below", "depth_above", "stream_error", "seam_drop_locus"]
 ROUTES = ["yml", "bam", "cn", "cn_dump"]
 OUTS = ["aldy", "vcf", "simple", "none"]
 # full factorial of loss x route x output x {single, multi}; a batch walks through it
@@ -36,6 +36,9 @@ def applicable(loss, route, multi):
         # history: the lossy sample is genotyped with --debug and a user-supplied structure, then the
         # archive is genotyped; only for the losses that leave the whole locus without reads
         return loss in ("locus", "empty") and not multi
+    if loss == "neutral_contig_absent":
+        # the header does not list the chromosome of the neutral region (only consulted with a profile)
+        return route in ("yml", "bam") and not multi
     if loss == "contig_absent":
         # the file's header does not list the gene's chromosome at all (a panel / trimmed header); both
         # generated genes live on one contig, so only single-gene runs
@@ -50,7 +53,7 @@ def applicable(loss, route, multi):
         return not multi and route != "cn_dump"
     if loss == "locus_skipped":
         return route != "cn_dump"
-    if multi and loss in ("neutral", "neutral_sparse", "empty", "depth_below", "depth_above", "stream_error"):
+    if multi and loss in ("neutral", "neutral_sparse", "neutral_contig_absent", "empty", "depth_below", "depth_above", "stream_error"):
         return False  # these hit every gene of the run
     return True
 
@@ -85,7 +88,7 @@ def gen_plan(rng, tier, i, seed):
     cells = [c for c in GRID if applicable(c[0], c[1], c[3])]
     loss, route, out, multi = cells[i % len(cells)]
     w = gen_world(seed, (i // len(cells) + i) % cfg["worlds"])
-    if loss == "contig_absent":
+    if loss in ("contig_absent", "neutral_contig_absent"):
         # needs a world whose neutral locus is on another chromosome than the gene
         w = gen_world(seed, 1 + 3 * ((i // len(cells)) % max(1, cfg["worlds"] // 3)))
     return {"w": w, "loss": loss, "route": route, "out": out, "multi": multi,
@@ -161,7 +164,7 @@ def judge(plan, outcome):
     called = bool(res_a) and any(len(x[1]) > 0 for x in res_a)
     has_del = any(al["kind"] == "deletion" for al in ga["alleles"]) and ga["pregions"] is not None
     fired = r["fired"]
-    expect_error = loss in ("contig_absent", "depth_just_below", "locus_skipped", "locus", "locus_decoy_sam", "neutral", "neutral_sparse", "empty", "depth_below", "seam_drop_locus")
+    expect_error = loss in ("contig_absent", "neutral_contig_absent", "depth_just_below", "locus_skipped", "locus", "locus_decoy_sam", "neutral", "neutral_sparse", "empty", "depth_below", "seam_drop_locus")
     if loss == "gene_only" and not has_del:
         # reads cover the pseudogene but the database has no whole-gene deletion allele: the statement
         # does not say what must happen (the locus is covered, a deletion cannot be called)
@@ -350,6 +353,10 @@ def _lossy_bam(seg, world, smp, loss, path):
         kept = [r for r in reads if r[3].startswith("n")]
         W.write_bam(path, world, kept, build=seg["build"], omit_main=True)
         return n_all, len(kept)
+    if loss == "neutral_contig_absent":
+        kept = [r for r in reads if not r[3].startswith("n")]
+        W.write_bam(path, world, kept, build=seg["build"], omit_neutral_contig=True)
+        return n_all, len(kept)
 
     def ref_end(r):
         return r[0] + sum(n for op, n in r[1] if op in (0, 2))
@@ -454,7 +461,7 @@ def run_segment(seg):
     effective = True
     records = None
     stream = None
-    if loss in ("contig_absent", "locus_skipped", "locus", "locus_decoy_sam", "locus_sliver", "gene_only", "neutral", "neutral_sparse", "empty"):
+    if loss in ("contig_absent", "neutral_contig_absent", "locus_skipped", "locus", "locus_decoy_sam", "locus_sliver", "gene_only", "neutral", "neutral_sparse", "empty"):
         sam_path = os.path.join(rd, "s0.sam" if loss == "locus_decoy_sam" else "s0.bam")
         records = _lossy_bam(seg, world, smp, loss, sam_path)
         effective = records[1] < records[0]
